@@ -431,3 +431,11 @@ Proof. vm_compute. reflexivity. Qed.
 Example fields_ex : valid_fields (mkF 2024 2 29 23 59 59 999999) = true /\ in_range 63844847999999999 = true /\
                     fields_of_us 63844847999999999 = mkF 2024 2 29 23 59 59 999999.
 Proof. repeat split; vm_compute; reflexivity. Qed.
+Example calendar_ex : valid_ymd 2024 2 29 = true /\ ymd_of_days (days_of_ymd 2024 2 29) = (2024, 2, 29) /\ valid_ymd 2023 2 29 = false.
+Proof. repeat split; vm_compute; reflexivity. Qed.
+Example advance_overflow_ex : in_range (wall (naive MAX_US) + 1) = false /\
+  advance_time_delta 1 (mkW (One (naive MAX_US)) 0 (fun _ => Exn ValueError) (fun _ => Exn KeyError)) =
+  (Exn OverflowError, mkW (One (naive MAX_US)) 0 (fun _ => Exn ValueError) (fun _ => Exn KeyError)).
+Proof. split; vm_compute; reflexivity. Qed.
+Example normalize_overflow_ex : normalize_time (mkDt 0 (Some (mkTz 60000000 None))) = Exn OverflowError.
+Proof. reflexivity. Qed.
